@@ -39,30 +39,37 @@ func builtinScenarios(prop string) map[string]*Case {
 			Clients: [][]Op{{{Op: "stop"}, {Op: "restart"}}, {{Op: "add", It: p(1)}, {Op: "add", It: p(2)}, {Op: "wait", N: 1}}}},
 		"result-batch-of-3": {Cfg: Config{Kind: "res", Queues: []string{"std"}, Conc: 2},
 			Clients: [][]Op{nil, {{Op: "addall", G: 0, Items: []Item{{N: 1, ID: "a"}, {N: 2, ID: "b", Out: OutErr}, {N: 3}}}, {Op: "gconsume", G: 0}, {Op: "gwait", G: 0}, {Op: "gpending", G: 0}}}},
+		"batch-wait": {Cfg: Config{Kind: "err", Queues: []string{"std"}, Conc: 1},
+			Clients: [][]Op{nil, {{Op: "addall", G: 0, Items: []Item{{N: 1}, {N: 2, Out: OutErr}}}, {Op: "gwait", G: 0}, {Op: "gpending", G: 0}}, {{Op: "yield"}, {Op: "gwait", G: 0}, {Op: "close", N: 2}}}},
+		"qclose-vs-add": {Cfg: Config{Kind: "plain", Queues: []string{"std"}, Conc: 1},
+			Clients: [][]Op{nil, {{Op: "barrier"}, {Op: "add", It: p(2)}, {Op: "qpending"}}, {{Op: "add", It: g(1)}, {Op: "settle"}, {Op: "barrier"}, {Op: "qclose"}, {Op: "add", It: p(3)}, {Op: "release", N: 1}}}},
 		"cancel-vs-dispatch": {Cfg: Config{Kind: "err", Queues: []string{"std"}, Conc: 1},
 			Clients: [][]Op{nil, {{Op: "add", It: p(1)}, {Op: "add", It: p(2)}, {Op: "close", N: 2}, {Op: "wait", N: 1}, {Op: "wait", N: 2}, {Op: "status", N: 2}}, {{Op: "close", N: 2}, {Op: "status", N: 1}}}},
 		"purge-vs-add": {Cfg: Config{Kind: "plain", Queues: []string{"prio"}, Conc: 1},
 			Clients: [][]Op{{{Op: "pause"}, {Op: "settle"}, {Op: "resume"}}, {{Op: "add", It: p(1)}, {Op: "add", It: p(2)}, {Op: "wait", N: 2}}, {{Op: "purge"}, {Op: "qpending"}, {Op: "npend"}}}},
 		"tune-down-under-load": {Cfg: Config{Kind: "plain", Queues: []string{"std"}, Conc: 3},
 			Clients: [][]Op{{{Op: "tune", V: 1}, {Op: "settle"}}, {{Op: "add", It: g(1)}, {Op: "add", It: g(2)}, {Op: "add", It: g(3)}, {Op: "add", It: g(4)}, {Op: "release", N: 1}, {Op: "release", N: 2}, {Op: "release", N: 3}}}},
+		"tune-down-with-idle-workers": {Cfg: Config{Kind: "plain", Queues: []string{"std"}, Conc: 3, Ratio: 100, FinalStop: true},
+			Clients: [][]Op{nil, {{Op: "barrier"}, {Op: "add", It: p(4)}, {Op: "add", It: p(5)}, {Op: "add", It: p(6)}},
+				{{Op: "add", It: g(1)}, {Op: "add", It: g(2)}, {Op: "add", It: g(3)}, {Op: "settle"}, {Op: "release", N: 1}, {Op: "release", N: 2}, {Op: "release", N: 3}, {Op: "settle"}, {Op: "barrier"}, {Op: "add", It: g(7)}, {Op: "tune", V: 1}}}},
 		"idle-expiry": {Cfg: Config{Kind: "plain", Queues: []string{"std"}, Conc: 2, ExpiryUs: 60, FinalStop: true},
 			Clients: [][]Op{nil, {{Op: "add", It: p(1)}, {Op: "add", It: p(2)}, {Op: "sleep", V: 200}, {Op: "add", It: p(3)}, {Op: "wait", N: 3}}}},
 		"samplers": {Cfg: Config{Kind: "plain", Queues: []string{"std"}, Conc: 1},
 			Clients: [][]Op{nil, {{Op: "add", It: p(1)}, {Op: "add", It: p(2)}, {Op: "wait", N: 2}}, {{Op: "qpending"}, {Op: "npend"}, {Op: "nproc"}, {Op: "metrics"}, {Op: "status", N: 1}, {Op: "qpending"}}}},
 	}
 	use := map[string][]string{
-		"C01": {"two-adds-then-wuf", "pausewait-vs-adds", "stop-restart-vs-adds", "cancel-vs-dispatch", "idle-expiry"},
-		"C02": {"tune-down-under-load", "stop-restart-vs-adds"},
+		"C01": {"qclose-vs-add", "tune-down-with-idle-workers", "two-adds-then-wuf", "pausewait-vs-adds", "stop-restart-vs-adds", "cancel-vs-dispatch", "idle-expiry"},
+		"C02": {"tune-down-under-load", "stop-restart-vs-adds", "tune-down-with-idle-workers"},
 		"C03": {"two-adds-then-wuf", "pausewait-vs-adds", "idle-expiry", "tune-down-under-load"},
-		"C05": {"cancel-vs-dispatch", "result-batch-of-3", "purge-vs-add"},
+		"C05": {"cancel-vs-dispatch", "result-batch-of-3", "purge-vs-add", "batch-wait"},
 		"C06": {"two-adds-then-wuf", "pausewait-vs-adds", "stop-restart-vs-adds", "purge-vs-add"},
 		"C07": {"result-batch-of-3"},
-		"C08": {"result-batch-of-3"},
+		"C08": {"result-batch-of-3", "batch-wait"},
 		"C09": {"pausewait-vs-adds", "stop-restart-vs-adds"},
-		"C10": {"cancel-vs-dispatch", "purge-vs-add"},
+		"C10": {"cancel-vs-dispatch", "purge-vs-add", "qclose-vs-add"},
 		"C16": {"cancel-vs-dispatch", "samplers"},
 		"C17": {"samplers", "purge-vs-add"},
-		"C18": {"idle-expiry", "stop-restart-vs-adds", "tune-down-under-load"},
+		"C18": {"idle-expiry", "stop-restart-vs-adds", "tune-down-under-load", "tune-down-with-idle-workers"},
 	}
 	out := map[string]*Case{}
 	for _, n := range use[prop] {
